@@ -616,8 +616,7 @@ class Helper:
         self.varname = a.vararg.arg if a.vararg else None
         var_ok = True
         if self.varname:
-            var_ok = not any(isinstance(n, ast.Name) and n.id == self.varname and isinstance(n.ctx, (ast.Store, ast.Del)) for n in _walk_fn(fn)) \
-                and not a.kwonlyargs
+            var_ok = not any(isinstance(n, ast.Name) and n.id == self.varname and isinstance(n.ctx, (ast.Store, ast.Del)) for n in _walk_fn(fn))
         # a memoising decorator on a function that computes its result from its arguments alone changes nothing a caller
         # can observe through the value (C12-P4 watches the one thing it does change: the result object is shared)
         memo_only = bool(fn.decorator_list) and all(
@@ -866,54 +865,59 @@ def inline_new_members(trees, shape_all):
     pinned_names = set()
     for sh in shape_all.values():
         pinned_names |= set(sh.get("names", ())) | {q.split(".")[-1] for q in sh["functions"]}
-    for mname, tree in trees.items():
+    for _pass in range(3):   # (a helper expanded into another module may bring calls of further new helpers with it)
+      progress = False
+      for mname, tree in trees.items():
         sh = shape_all.get(mname)
         if sh is None:
             sh = {"functions": {}}   # a module that did not exist when the shapes were pinned: all its functions are new
         for st in list(tree.body):
-            if not (isinstance(st, ast.FunctionDef) and st.name not in sh["functions"] and st.name not in pinned_names
-                    and st.name not in pinned_attrs and len(defs.get(st.name, ())) == 1 and not st.decorator_list):
-                continue
-            h = Helper(st)
-            if not h.usable():
-                continue
-            prepared = False
-            for oname, otree in trees.items():
-                if oname == mname:
-                    continue
-                imported = any(isinstance(i, ast.ImportFrom) and any(a.name == st.name and a.asname in (None, st.name) for a in i.names)
-                               for i in otree.body)
-                rebound = any(isinstance(n, ast.Name) and n.id == st.name and isinstance(n.ctx, (ast.Store, ast.Del)) for n in ast.walk(otree))
-                if not imported or rebound:
-                    continue
-                if not prepared:
-                    forward_substitute(st, fn_locals(st) - set(h.params))
-                    h.body = _strip_doc(st.body)
-                    prepared = True
-                done = []
-                for q, fn in functions_of(otree).items():
-                    for _round in range(3):
-                        if not _inline_in_function(fn, {st.name: h}, {}, done):
-                            break
-                if done:
-                    # names of the defining module the inlined body refers to are made visible where it now stands
-                    bound_here = {n.id for n in ast.walk(otree) if isinstance(n, ast.Name) and isinstance(n.ctx, ast.Store)} | \
-                        {(a.asname or a.name).split(".")[0] for i in otree.body if isinstance(i, (ast.Import, ast.ImportFrom)) for a in i.names} | \
-                        {x.name for x in otree.body if isinstance(x, (ast.FunctionDef, ast.ClassDef))}
-                    top = {x.name for x in tree.body if isinstance(x, (ast.FunctionDef, ast.ClassDef))} | \
-                        {(a.asname or a.name).split(".")[0] for i in tree.body if isinstance(i, (ast.Import, ast.ImportFrom)) for a in i.names} | \
-                        {t.id for x in tree.body if isinstance(x, ast.Assign) for t in x.targets if isinstance(t, ast.Name)}
-                    need = sorted(({n.id for n in ast.walk(st) if isinstance(n, ast.Name) and isinstance(n.ctx, ast.Load)} & top) - bound_here)
-                    if need:
-                        imp = ast.ImportFrom(module=mname, names=[ast.alias(name=x, asname=None) for x in need], level=0)
-                        k = next((j for j, x in enumerate(otree.body) if isinstance(x, (ast.Import, ast.ImportFrom))), 0)
-                        otree.body.insert(k, ast.copy_location(imp, otree.body[k] if otree.body else imp))
-                    ast.fix_missing_locations(otree)
-                    log.setdefault(oname, [])
-                    log[oname] = sorted(set(log[oname]) | set(done))
-            if prepared and not any(isinstance(n, ast.Name) and n.id == st.name and isinstance(n.ctx, ast.Load)
-                                    for t_ in trees.values() for n in ast.walk(t_)):
-                tree.body.remove(st)   # every use was expanded: the helper itself is no longer part of the program
+              if not (isinstance(st, ast.FunctionDef) and st.name not in sh["functions"] and st.name not in pinned_names
+                      and st.name not in pinned_attrs and len(defs.get(st.name, ())) == 1 and not st.decorator_list):
+                  continue
+              h = Helper(st)
+              if not h.usable():
+                  continue
+              prepared = False
+              for oname, otree in trees.items():
+                  if oname == mname:
+                      continue
+                  imported = any(isinstance(i, ast.ImportFrom) and any(a.name == st.name and a.asname in (None, st.name) for a in i.names)
+                                 for i in otree.body)
+                  rebound = any(isinstance(n, ast.Name) and n.id == st.name and isinstance(n.ctx, (ast.Store, ast.Del)) for n in ast.walk(otree))
+                  if not imported or rebound:
+                      continue
+                  if not prepared:
+                      forward_substitute(st, fn_locals(st) - set(h.params))
+                      h.body = _strip_doc(st.body)
+                      prepared = True
+                  done = []
+                  for q, fn in functions_of(otree).items():
+                      for _round in range(3):
+                          if not _inline_in_function(fn, {st.name: h}, {}, done):
+                              break
+                  if done:
+                      # names of the defining module the inlined body refers to are made visible where it now stands
+                      bound_here = {n.id for n in ast.walk(otree) if isinstance(n, ast.Name) and isinstance(n.ctx, ast.Store)} | \
+                          {(a.asname or a.name).split(".")[0] for i in otree.body if isinstance(i, (ast.Import, ast.ImportFrom)) for a in i.names} | \
+                          {x.name for x in otree.body if isinstance(x, (ast.FunctionDef, ast.ClassDef))}
+                      top = {x.name for x in tree.body if isinstance(x, (ast.FunctionDef, ast.ClassDef))} | \
+                          {(a.asname or a.name).split(".")[0] for i in tree.body if isinstance(i, (ast.Import, ast.ImportFrom)) for a in i.names} | \
+                          {t.id for x in tree.body if isinstance(x, ast.Assign) for t in x.targets if isinstance(t, ast.Name)}
+                      need = sorted(({n.id for n in ast.walk(st) if isinstance(n, ast.Name) and isinstance(n.ctx, ast.Load)} & top) - bound_here)
+                      if need:
+                          imp = ast.ImportFrom(module=mname, names=[ast.alias(name=x, asname=None) for x in need], level=0)
+                          k = next((j for j, x in enumerate(otree.body) if isinstance(x, (ast.Import, ast.ImportFrom))), 0)
+                          otree.body.insert(k, ast.copy_location(imp, otree.body[k] if otree.body else imp))
+                      ast.fix_missing_locations(otree)
+                      log.setdefault(oname, [])
+                      log[oname] = sorted(set(log[oname]) | set(done))
+                      progress = True
+              if prepared and not any(isinstance(n, ast.Name) and n.id == st.name and isinstance(n.ctx, ast.Load)
+                                      for t_ in trees.values() for n in ast.walk(t_)):
+                  tree.body.remove(st)   # every use was expanded: the helper itself is no longer part of the program
+      if not progress:
+        break
     if not props and not methods:
         return log
     for mname, tree in trees.items():
@@ -1018,6 +1022,17 @@ def inline_helpers(tree, shape, keep=frozenset()):
         if not changed:
             break
     _inline_closures(tree, pinned_fns, inlined)
+    def referenced_outside(name, own):
+        for top in tree.body:
+            if top is own:
+                continue
+            for n in ast.walk(top):
+                if isinstance(n, ast.Name) and n.id == name and isinstance(n.ctx, ast.Load):
+                    return True
+                if isinstance(n, ast.Constant) and n.value == name:
+                    return True   # (mentioned in __all__ or looked up by name)
+        return False
+
     # drop helpers that are no longer referenced
     def referenced(name, method):
         for n in ast.walk(tree):
@@ -1027,9 +1042,15 @@ def inline_helpers(tree, shape, keep=frozenset()):
             elif isinstance(n, ast.Name) and n.id == name and isinstance(n.ctx, ast.Load):
                 return True
         return False
-    for name, h in list(helpers.items()):
-        if name in inlined and not referenced(name, False) and name not in keep:
-            tree.body.remove(h.fn)
+    changed_ = True
+    while changed_:
+        changed_ = False
+        for name, h in list(helpers.items()):
+            # (a new helper nobody refers to any more - it was expanded here or, earlier, into the modules that imported it -
+            # is not part of the program under analysis; removing it may free further helpers it was the last user of)
+            if h.fn in tree.body and not referenced_outside(name, h.fn) and name not in keep and (name in inlined or name.startswith("_") or True):
+                tree.body.remove(h.fn)
+                changed_ = True
     for cname, d in cls_helpers_by_class.items():
         cdef = next(c for c in tree.body if isinstance(c, ast.ClassDef) and c.name == cname)
         for name, h in d.items():
@@ -2453,6 +2474,34 @@ def expand_table_dispatch(tree):
     return count
 
 
+def merge_guards(fn):
+    """N29.  `if A: S` directly followed by `if B: S` with the same terminating body S (a raise / return / continue / break,
+    no else) and effect-free tests is `if A or B: S`.  A bare-name operand (a mode flag) is put first, as the decode core
+    spells such tests."""
+    n = 0
+    for owner, field, lst in _stmt_lists(fn):
+        i = 0
+        while i + 1 < len(lst):
+            a, b = lst[i], lst[i + 1]
+            if isinstance(a, ast.If) and isinstance(b, ast.If) and not a.orelse and not b.orelse and a.body and \
+                    isinstance(a.body[-1], (ast.Raise, ast.Return, ast.Continue, ast.Break)) and len(a.body) == 1 and \
+                    ast.dump(ast.Module(body=a.body, type_ignores=[])) == ast.dump(ast.Module(body=b.body, type_ignores=[])) and \
+                    is_pure(a.test) and is_pure(b.test):
+                ops = [a.test, b.test]
+                flat = []
+                for t in ops:
+                    flat.extend(t.values if isinstance(t, ast.BoolOp) and isinstance(t.op, ast.Or) else [t])
+                flat.sort(key=lambda t: 0 if isinstance(t, ast.Name) else 1)
+                a.test = ast.copy_location(ast.BoolOp(op=ast.Or(), values=flat), a.test)
+                del lst[i + 1]
+                n += 1
+                continue
+            i += 1
+    if n:
+        ast.fix_missing_locations(fn)
+    return n
+
+
 class _SpreadKeywords(ast.NodeTransformer):
     """N27.  `f(a, **{"k": v, "l": w})` is `f(a, k=v, l=w)` (a dict display with string-literal keys that are identifiers)."""
     count = 0
@@ -2704,6 +2753,9 @@ def normalise(tree, modname, shape_all=None, keep=frozenset()):
                 total += k
             if total:
                 log["conditionals"][q] = total
+    for q, fn in functions_of(tree).items():
+        if shape["functions"].get(q) is not None and merge_guards(fn):
+            log.setdefault("merged_guards", []).append(q)
     sk = _SpreadKeywords()
     _SpreadKeywords.count = 0
     sk.visit(tree)
